@@ -63,6 +63,15 @@ var outerConfs = append([]string{
 	"checks = [\"inherit\", \"ST1003\"]\n",
 }, genmod.Confs[:4]...)
 
+// the op alphabet by category of the property's quantifier
+var opCats = [][]string{
+	{"body", "pad", "local", "ignore", "ignore_u1000", "initialism", "rangeint", "two_files", "iface_use", "generic", "common", "recvmix", "test_body", "test_files", "tagfile", "osfiles", "plain"},
+	{"body_dep", "dep_func", "dep_func_samelen", "dep_method", "dep_method_samelen", "pure", "dep_pure", "nonnil"},
+	{"conf_pkg", "conf_root", "conf_outer", "conf_rm"},
+	{"flag_go", "flag_tags", "flag_tests", "flag_checks", "goos", "patterns", "gomod_go"},
+	{"revert", "touch", "clock", "rerun"},
+}
+
 var goVersions = []string{"", "1.21", "1.22", "1.20", "1.23"}
 var checkSets = []string{"", "all", "inherit,-SA4018", "SA*,U1000", "all,-U1000"}
 var clockJumps = []int64{1, 59 * 60, 61 * 60, 23 * 3600, 25 * 3600, 5 * 86400, 5*86400 + 61*60, 6 * 86400, 30 * 86400}
@@ -486,7 +495,7 @@ func (engine) Property() string { return "C04" }
 func (engine) Generate(seed uint64, index int, tier string) json.RawMessage {
 	r := genmod.Rng(seed)
 	npkg := 3 + r.N(4)
-	tests := r.P(200)
+	tests := r.P(350)
 	m := genmod.Generate(&r, npkg, []string{"chain", "diamond", "random", "fan"}[r.N(4)], tests)
 	// make sure facts flow: package 0 is imported by someone
 	if len(m.Pkgs) > 1 && len(m.Pkgs[1].Imports) == 0 {
@@ -508,18 +517,37 @@ func (engine) Generate(seed uint64, index int, tier string) json.RawMessage {
 	if tier == "thorough" {
 		n = 2 + r.N(24)
 	}
-	// swarm: per-case weights over the op alphabet
+	// swarm: per-case weights, first over the categories of the property's
+	// quantifier (so that the many kinds of "edit a file of the target
+	// package" do not crowd out flag changes and configuration edits), then
+	// over the ops of a category
+	cw := make([]int, len(opCats))
 	w := make([]int, len(ops))
 	tot := 0
-	for i := range ops {
-		w[i] = r.N(4)
-		switch ops[i] {
-		case "flag_tests", "test_files", "goos":
-			w[i] = r.N(2) // expensive states
-		case "dep_func", "dep_func_samelen", "dep_method", "dep_method_samelen", "pure", "dep_pure", "nonnil", "revert", "body_dep", "conf_outer":
-			w[i] += 2
+	for ci, cat := range opCats {
+		cw[ci] = 1 + r.N(4)
+		sub := 0
+		idx := make([]int, 0, len(cat))
+		for _, name := range cat {
+			for i := range ops {
+				if ops[i] == name {
+					idx = append(idx, i)
+				}
+			}
 		}
-		tot += w[i]
+		for _, i := range idx {
+			w[i] = r.N(4)
+			sub += w[i]
+		}
+		if sub == 0 {
+			w[idx[r.N(len(idx))]] = 1
+			sub = 1
+		}
+		// scale: category weight cw[ci] spread over its ops
+		for _, i := range idx {
+			w[i] = w[i] * cw[ci] * 60 / sub
+			tot += w[i]
+		}
 	}
 	if tot == 0 {
 		w[0], tot = 1, 1
